@@ -1,6 +1,6 @@
 (** C19 — property theorems only.  Each is closed by [exact] of a lemma proved in C19_Proofs*.v. *)
 From Coq Require Import ZArith List Reals Sorting.Permutation Sorting.Sorted.
-From LP Require Import Num NumR OrdLaws C19_Model C19_Proofs C19_Proofs_Lists C19_Proofs_Stats C19_Proofs_Overloads C19_Proofs_Session C19_Proofs_Weighted C19_Proofs_Histories C19_Proofs_Partition C19_Proofs_Float C19_Proofs_Cross.
+From LP Require Import Num NumR OrdLaws C19_Model C19_Proofs C19_Proofs_Lists C19_Proofs_Stats C19_Proofs_Overloads C19_Proofs_Session C19_Proofs_Weighted C19_Proofs_Histories C19_Proofs_Partition C19_Proofs_Float C19_Proofs_Cross C19_Proofs_Grow7 Gen_C19_Formulas C19_GenTie.
 Import ListNotations.
 
 (** ** Workload_Distribution(workers,tasks): workers+1 non-decreasing indices from 0 to tasks whose
@@ -591,3 +591,103 @@ Theorem C19_linear_space_monotone_rounded {T : Type} (Ops : NumOps T) (fin : T -
      forall i j, (i <= j < steps)%nat -> nleb Ops (nth j l d) (nth i l d) = true).
 Proof. exact (linear_space_monotone_rounded Ops fin). Qed.
 Print Assumptions C19_linear_space_monotone_rounded.
+
+(** ** Seventh pass *)
+
+(** Workload_Distribution computes in `int` (the model in Z): every value the index list holds in any state of the remainder
+    loop - after n = 0 .. tasks mod workers iterations, n = 0 being the state the first loop leaves, n = tasks mod workers the
+    returned list - lies in [0, tasks]; the quotient lies in [0, tasks], the remainder in [0, workers) and every increment
+    `remainder - i` in [1, workers - 1].  Hence for tasks <= INT_MAX no `int` operation of the C++ code overflows and the
+    model's integers are the program's integers. *)
+Theorem C19_workload_machine_integers (w t : nat) : (1 <= w)%nat ->
+  let q := (Z.of_nat t / Z.of_nat w)%Z in
+  let r := (Z.of_nat t mod Z.of_nat w)%Z in
+  (forall n k, (Z.of_nat n <= r)%Z -> (k <= w)%nat ->
+     (0 <= nth k (wl_rem (wl_base q 0 w) w r 0 n) 0%Z <= Z.of_nat t)%Z) /\
+  workload_list w t = wl_rem (wl_base q 0 w) w r 0 (Z.to_nat r) /\
+  (0 <= q <= Z.of_nat t)%Z /\ (0 <= r < Z.of_nat w)%Z /\ (forall i, (0 <= i < r)%Z -> (1 <= r - i <= Z.of_nat w - 1)%Z).
+Proof.
+  intros Hw q r. split; [intros n k; exact (workload_every_state_in_range w t n k Hw)|].
+  split; [exact (workload_list_is_last_state w t)|exact (workload_scalars_in_range w t Hw)].
+Qed.
+Print Assumptions C19_workload_machine_integers.
+Example C19_workload_machine_integers_nonvacuous : nth 3 (wl_rem (wl_base (10 / 3) 0 3) 3 (10 mod 3) 0 1) 0%Z = 10%Z.
+Proof. exact workload_range_nonvacuous. Qed.
+
+(** DataPoint (Statistics.cpp section 4; the element type of Weighted_Average's argument): the constructors store their arguments
+    (default value 0, default weight 1); operator>, operator<, operator== look at the values only - in every number type, doubles
+    with NaN included *)
+Theorem C19_datapoint_any_number_type {T : Type} (Ops : NumOps T) :
+  (forall v w : T, datapoint v w = (v, w) /\ datapoint1 Ops v = (v, n1 Ops) /\ datapoint0 Ops = (n0 Ops, n1 Ops)) /\
+  (forall a b : T * T, dp_gt Ops a b = dp_lt Ops b a) /\
+  (forall v1 w1 v2 w2 w1' w2' : T,
+     dp_lt Ops (datapoint v1 w1) (datapoint v2 w2) = dp_lt Ops (datapoint v1 w1') (datapoint v2 w2') /\
+     dp_gt Ops (datapoint v1 w1) (datapoint v2 w2) = dp_gt Ops (datapoint v1 w1') (datapoint v2 w2') /\
+     dp_eq Ops (datapoint v1 w1) (datapoint v2 w2) = dp_eq Ops (datapoint v1 w1') (datapoint v2 w2')).
+Proof. exact (conj (datapoint_fields Ops) (conj (dp_gt_is_flipped_lt Ops) (dp_compare_ignores_weights Ops))). Qed.
+Print Assumptions C19_datapoint_any_number_type.
+
+(** from the laws of a strict total order alone (doubles without NaN): operator< on data points is irreflexive and transitive,
+    operator== is exactly incomparability under it and is compatible with it, and exactly one of <, ==, > holds - what
+    std::sort / std::nth_element on a vector of data points need *)
+Theorem C19_datapoint_order_ord {T : Type} (Ops : NumOps T) : OrdLaws Ops ->
+  (forall a, dp_lt Ops a a = false) /\
+  (forall a b c, dp_lt Ops a b = true -> dp_lt Ops b c = true -> dp_lt Ops a c = true) /\
+  (forall a b, dp_eq Ops a b = true <-> (dp_lt Ops a b = false /\ dp_gt Ops a b = false)) /\
+  (forall a a' b, dp_eq Ops a a' = true -> dp_lt Ops a b = dp_lt Ops a' b /\ dp_lt Ops b a = dp_lt Ops b a') /\
+  (forall a b,
+     (dp_lt Ops a b = true /\ dp_eq Ops a b = false /\ dp_gt Ops a b = false) \/
+     (dp_lt Ops a b = false /\ dp_eq Ops a b = true /\ dp_gt Ops a b = false) \/
+     (dp_lt Ops a b = false /\ dp_eq Ops a b = false /\ dp_gt Ops a b = true)).
+Proof.
+  intros OL. exact (conj (dp_lt_irrefl Ops OL) (conj (dp_lt_trans Ops OL) (conj (dp_eq_iff_incomparable Ops OL)
+        (conj (dp_eq_compatible Ops OL) (dp_trichotomy Ops OL))))).
+Qed.
+Print Assumptions C19_datapoint_order_ord.
+Example C19_datapoint_order_nonvacuous : OrdLaws ROps /\
+  dp_eq ROps (datapoint 1%R 2%R) (datapoint 1%R 3%R) = true /\ datapoint 1%R 2%R <> datapoint 1%R 3%R.
+Proof. exact (conj ROps_OrdLaws dp_eq_not_structural). Qed.
+
+(** ** T-tie: the terms regenerated from the C++ source on every run (Gen_C19_Formulas.v, from clang's AST of src/Statistics.cpp
+    and src/Utilities.cpp by tools/cxx2gallina_C19.py) are the hand model.  The generated terms follow the source statement by
+    statement (one fold over a tuple of accumulators per loop, push_back loops, `unsigned` as Z, literals as [nlit]); the
+    hand model has one fold per sum.  [LitLaws]: the literals 0.0, 1.0, 2.0 are the integers 0, 1, 2 of the number type
+    (true in R, C19_generated_literal_laws_hold_in_R; in doubles by exact representability). *)
+Theorem C19_generated_DataPoint_operators_is_model {T : Type} (Ops : NumOps T) (a b : T * T) :
+  g_DataPoint_lt Ops a b = dp_lt Ops a b /\ g_DataPoint_gt Ops a b = dp_gt Ops a b /\ g_DataPoint_eq Ops a b = dp_eq Ops a b.
+Proof. exact (conj (tie_DataPoint_lt Ops a b) (conj (tie_DataPoint_gt Ops a b) (tie_DataPoint_eq Ops a b))). Qed.
+Print Assumptions C19_generated_DataPoint_operators_is_model.
+
+Theorem C19_generated_Arithmetic_Mean_is_model {T : Type} (Ops : NumOps T) : LitLaws Ops ->
+  forall l, g_Arithmetic_Mean Ops l = arithmetic_mean Ops l.
+Proof. exact (tie_Arithmetic_Mean Ops). Qed.
+Print Assumptions C19_generated_Arithmetic_Mean_is_model.
+
+Theorem C19_generated_Variance_is_model {T : Type} (Ops : NumOps T) : LitLaws Ops ->
+  forall l, g_Variance Ops l = variance Ops l.
+Proof. exact (tie_Variance Ops). Qed.
+Print Assumptions C19_generated_Variance_is_model.
+
+Theorem C19_generated_Standard_Deviation_is_model {T : Type} (Ops : NumOps T) : LitLaws Ops ->
+  forall l, g_Standard_Deviation Ops l = standard_deviation Ops l.
+Proof. exact (tie_Standard_Deviation Ops). Qed.
+Print Assumptions C19_generated_Standard_Deviation_is_model.
+
+(* the source updates (sum, wsum) in one loop and (sum1, sum2, sum3) in a second one and returns the vector {Average, sqrt(SE)} *)
+Theorem C19_generated_Weighted_Average_is_model {T : Type} (Ops : NumOps T) : LitLaws Ops ->
+  forall d, g_Weighted_Average Ops d = [fst (weighted_average Ops d); snd (weighted_average Ops d)].
+Proof. exact (tie_Weighted_Average Ops). Qed.
+Print Assumptions C19_generated_Weighted_Average_is_model.
+
+Theorem C19_generated_Linear_Space_is_model {T : Type} (Ops : NumOps T) : LitLaws Ops ->
+  forall mn mx (steps : nat), g_Linear_Space Ops mn mx (Z.of_nat steps) = linear_space Ops mn mx steps.
+Proof. exact (tie_Linear_Space Ops). Qed.
+Print Assumptions C19_generated_Linear_Space_is_model.
+
+Theorem C19_generated_Log_Space_is_model {T : Type} (Ops : NumOps T) : LitLaws Ops ->
+  forall mn mx (steps : nat), g_Log_Space Ops mn mx (Z.of_nat steps) = log_space Ops mn mx steps.
+Proof. exact (tie_Log_Space Ops). Qed.
+Print Assumptions C19_generated_Log_Space_is_model.
+
+Example C19_generated_literal_laws_hold_in_R : LitLaws ROps.
+Proof. exact ROps_LitLaws. Qed.
